@@ -317,6 +317,8 @@ type vc06Inst struct {
 	refs     map[vc06Ref][]byte // byte strings whose presence is compared: everything admitted + the last offer
 	pays     map[vc06Ref]bool   // payload hashes compared: everything admitted + the last offer
 	poisoned bool
+	env      *vc06Env
+	subs     []vc06Sub
 }
 
 type vc06Problem struct {
@@ -349,17 +351,25 @@ func vc06NewInst(env *vc06Env, subs []vc06Sub, wrap func(stoabs.KVStore) stoabs.
 	if wrap != nil {
 		in.db = wrap(raw)
 	}
-	s, err := NewState(in.db, NewPrevTransactionsVerifier(), NewTransactionSignatureVerifier(vc06Resolver{env}))
+	in.env, in.subs = env, subs
+	in.openState()
+	in.model = vc06NewModel(env, subs)
+	return in
+}
+
+// openState creates a dag.State on the store (again: a restart is a new State on the same file) and registers the subscribers.
+func (in *vc06Inst) openState() {
+	s, err := NewState(in.db, NewPrevTransactionsVerifier(), NewTransactionSignatureVerifier(vc06Resolver{in.env}))
 	if err != nil {
 		panic(err)
 	}
 	in.st = s.(*state)
 	in.st.xorTreeRepair.ticker.Stop()
-	for _, sd := range subs {
+	for _, sd := range in.subs {
 		sd := sd
 		recv := func(e Event) (bool, error) {
 			in.mu.Lock()
-			in.log = append(in.log, sd.name+"|"+e.Hash.String()+"|"+e.Type)
+			in.log = append(in.log, sd.name+"|"+e.Hash.String()+"|"+e.Type+"|"+vc06PayloadDigest(e.Payload))
 			in.mu.Unlock()
 			return true, nil
 		}
@@ -374,8 +384,12 @@ func vc06NewInst(env *vc06Env, subs []vc06Sub, wrap func(stoabs.KVStore) stoabs.
 	if err := in.st.Configure(core.ServerConfig{}); err != nil {
 		panic(err)
 	}
-	in.model = vc06NewModel(env, subs)
-	return in
+}
+
+// reopen: the in-memory state is thrown away and rebuilt from the store.
+func (in *vc06Inst) reopen() {
+	_ = in.st.Shutdown()
+	in.openState()
 }
 
 func (in *vc06Inst) close() {
@@ -598,7 +612,40 @@ func (in *vc06Inst) compare() (ps []vc06Problem) {
 			problem("state-differs|payload-shelf", fmt.Sprintf("payload %x: stored=%v model=%v", ph[:4], err == nil, inModel))
 		}
 	}
-	// digests
+	// highest clock and transaction count as the node serves / stores them
+	wantHigh, wantCount := uint32(0), uint64(len(in.model.txs))
+	for _, mt := range in.model.txs {
+		if mt.clock > wantHigh {
+			wantHigh = mt.clock
+		}
+	}
+	if got := in.st.lamportClockHigh.Load(); got != wantHigh {
+		problem("state-differs|lc-high", fmt.Sprintf("highest Lamport clock in memory %d, the admitted set implies %d", got, wantHigh))
+	}
+	var gotCount uint64
+	var gotHighDB uint32
+	_ = in.raw.Read(ctx, func(tx stoabs.ReadTx) error {
+		gotCount = in.st.graph.getNumberOfTransactions(tx)
+		gotHighDB = in.st.graph.getHighestClockValue(tx)
+		return nil
+	})
+	if gotCount != wantCount || gotHighDB != wantHigh {
+		problem("state-differs|metadata", fmt.Sprintf("stored transaction count %d / highest clock %d, the admitted set implies %d / %d", gotCount, gotHighDB, wantCount, wantHigh))
+	}
+	// digests (every page: with these clocks all transactions are on the first page, so the root is the page)
+	for c := uint32(0); c <= wantHigh+1; c++ {
+		wx := vc06Ref{}
+		for r, mt := range in.model.txs {
+			_ = mt
+			for i := range wx {
+				wx[i] ^= r[i]
+			}
+		}
+		if h, _ := in.st.XOR(c); vc06Ref(h) != wx {
+			problem("state-differs|xor", fmt.Sprintf("XOR(%d) digest %x, the admitted set implies %x", c, h[:4], wx[:4]))
+			break
+		}
+	}
 	xh, _ := in.st.XOR(MaxLamportClock)
 	if vc06Ref(xh) != xor {
 		problem("state-differs|xor", fmt.Sprintf("XOR digest %x, the admitted set implies %x", xh[:4], xor[:4]))
@@ -632,7 +679,7 @@ func vc06Short(l []string) []string {
 	o := make([]string, len(l))
 	for i, s := range l {
 		p := strings.Split(s, "|")
-		if len(p) == 3 && len(p[1]) > 8 {
+		if len(p) >= 3 && len(p[1]) > 8 {
 			p[1] = p[1][:8]
 		}
 		o[i] = strings.Join(p, "|")
